@@ -518,7 +518,7 @@ def deep_eq(a: Any, b: Any) -> bool:
         return a == b
     if isinstance(a, (list, tuple)):
         return len(a) == len(b) and all(deep_eq(x, y) for x, y in zip(a, b))
-    if isinstance(a, frozenset):
+    if isinstance(a, (frozenset, set)):
         if len(a) != len(b):
             return False
         rest = list(b)
